@@ -535,6 +535,9 @@ class Rig:
             "chan_created": len(CountingChannel.created),
             "accepts": len(ts.server_accepts),
             "client_alive": bool(self.tc.active),
+            # key re-exchange dimension: has a re-exchange completed (latest exchange hash != session identifier)?
+            "rekeyed": bool(ts.H is not None and ts.session_id is not None and ts.H != ts.session_id),
+            "kex_idle": bool(not ts.in_kex and ts.clear_to_send.is_set()),
         }
 
     # -- events ----------------------------------------------------------------------------
@@ -569,7 +572,12 @@ class Rig:
                 m.add_string(b"newpw")
         elif method == "publickey":
             kk, alg, sv = variant.split("/")
-            m = publickey_request(self.sid, user, service, kk, alg, sv)
+            sid = self.sid
+            if sv == LATEST_H:
+                # a correct signature, but over the transport's LATEST exchange hash in the place of the session
+                # identifier (the same value until a re-exchange has completed, another one afterwards)
+                sid, sv = self.tc.H, "valid"
+            m = publickey_request(sid, user, service, kk, alg, sv)
         elif method == "keyboard-interactive":
             m = F.msg(MSG_USERAUTH_REQUEST, *head, ("str", b""), ("str", b""))
         elif method == "gssapi-with-mic":
@@ -588,8 +596,8 @@ class Rig:
                 ctx = StubGSS("gssapi-keyex")
                 ctx.established = (mode == "ctx")
                 self.ts.kexgss_ctxt, self.ts.gss_kex_used = ctx, (mode == "ctx")
-            mic = StubGSS.mic_for(self.sid, user, "gssapi-keyex")
-            if q != "valid":
+            mic = StubGSS.mic_for(self.tc.H if q == LATEST_H else self.sid, user, "gssapi-keyex")
+            if q not in ("valid", LATEST_H):
                 mic = mic[:-1] + bytes([mic[-1] ^ 1])
             m = F.msg(MSG_USERAUTH_REQUEST, *head, ("str", mic))
         else:
@@ -599,6 +607,8 @@ class Rig:
     def step(self, ev):
         """Send one event, let the server react completely, return the observation."""
         ev = R.tup(ev)
+        if is_rekey(ev):
+            return self.rekey(ev[1])
         subs = ev[1] if ev[0] == "burst" else (ev,)
         delivered = 0
         # a burst is written while the server is not running: all packets are in flight together.
@@ -623,9 +633,73 @@ class Rig:
         o["delivered"] = delivered
         return o
 
+    def rekey(self, who):
+        """Event ("rekey", "client"|"server"): that side begins a key re-exchange (Transport.renegotiate_keys) and
+        both sides run it to completion before the next event.  The session identifier (self.sid, what the
+        harness signs) stays that of the FIRST exchange.  On an ended connection nothing is sent."""
+        t = self.tc if who == "client" else self.ts
+        h0, how = self.ts.H, "ok"
+        if not (self.ts.active and self.tc.active):
+            how = "skipped:connection-ended"
+        else:
+            try:
+                t.renegotiate_keys()
+            except (paramiko.SSHException, EOFError, OSError) as e:
+                how = "failed:" + type(e).__name__
+        self.s.quiesce()
+        o = self.observe()
+        o["delivered"] = 0
+        if how == "ok" and not (o["rekeyed"] and o["kex_idle"] and self.ts.H != h0 and self.tc.H == self.ts.H
+                                and self.ts.session_id == self.sid == self.tc.session_id):
+            how = "incomplete"
+        o["rekey"] = how
+        return o
+
     def close(self):
         self.p.close()
         self.s.quiesce()
+
+
+# ------------------------------------------------------------------------------------------------
+# key re-exchange as an event of the history (C14, C15, C16).  The reference model (refs/authref.py) knows
+# nothing about it: for authentication a completed re-exchange is a no-op, except that a proof made over the
+# latest exchange hash stops being a proof for this session's identifier.
+LATEST_H = "latest-H"
+REKEY_EVENTS = (("rekey", "client"), ("rekey", "server"))
+
+
+def is_rekey(ev):
+    return isinstance(ev, (tuple, list)) and len(ev) == 2 and ev[0] == "rekey"
+
+
+def strip_rekeys(hist):
+    """The history as the reference model sees it (re-exchanges removed)."""
+    return [e for e in hist if not is_rekey(e)]
+
+
+def rekey_verdict(model):
+    v = R.Verdict()
+    v.site = v.why = "re-exchange"
+    v.dead_before = not model.alive
+    return v
+
+
+def model_step(model, ev, rekeyed):
+    """model.step(ev) for the extended alphabet: re-exchange events leave the model alone; a proof over the
+    latest exchange hash is the valid proof while no re-exchange has completed (`rekeyed` false: the value IS the
+    session identifier) and a proof for another session identifier afterwards."""
+    ev = R.tup(ev)
+    if is_rekey(ev):
+        return rekey_verdict(model)
+    if ev[0] == "req" and ev[4].endswith("/" + LATEST_H):
+        base = ev[4][:-len(LATEST_H)]
+        if not rekeyed:
+            return model.step(ev[:4] + (base + "valid",) + ev[5:])
+        v = model.step(ev[:4] + (base + ("other-session" if ev[3] == "publickey" else "invalid"),) + ev[5:])
+        v.why = v.why.replace("sig:other-session", "sig:latest-exchange-hash-is-not-the-session-id").replace(
+            "mic:invalid", "mic:latest-exchange-hash-is-not-the-session-id")
+        return v
+    return model.step(ev)
 
 
 def run_history(hist, gss=True, service_request=True, pre=None, post=None, gss_dispatch="shipped"):
